@@ -51,6 +51,15 @@ func (p *Parser) ParsePackages(ctx context.Context, packageNames []string) ([]*c
 		pkgCtx := pkgLog.WithContext(ctx)
 
 		if len(pkg.GoFiles) == 0 {
+			// A package without Go files is skipped (e.g. only test files, or every
+			// file excluded by build constraints), but one that could not be found
+			// at all must not be skipped silently.
+			if len(pkg.Errors) != 0 && len(pkg.IgnoredFiles) == 0 {
+				for _, err := range pkg.Errors {
+					log.Err(err).Msg("encountered error when loading package")
+				}
+				return nil, errors.New("error occurred when loading packages")
+			}
 			continue
 		}
 		for _, err := range pkg.Errors {
